@@ -15,17 +15,36 @@ def form_src(f):
     return {"const": str(f["v"]), "mul2": "2*%d" % f["v"], "param": "n", "param1": "n+1"}[f["k"]]
 
 
-def render(case):
+STYLES = ["decl", "late", "array-in-loop", "anonymous", "anonymous-in-loop-only"]
+
+
+def render(case, i=0):
+    """the instantiation is written in one of five ways (rotating): declared with initialiser, declared and assigned later, an
+    element of a component array assigned in a loop, an anonymous component, an anonymous component in a loop with no other
+    component in the template (anonymous forms need the callee's definition: a stub with that name is added)"""
     k = case["kind"]
-    if k == "table":
-        return ("pragma circom 2.0.0;\ntemplate T() {\n  signal input a;\n  signal output o;\n  component c = %s();\n"
-                "  c.in <== a;\n  o <== c.out;\n}\n" % case["name"])
-    if k == "size":
-        return ("pragma circom 2.0.0;\ntemplate T(n) {\n  signal input a;\n  signal output o;\n  component c = %s(%s);\n"
-                "  c.in <== a;\n  o <== c.out[0];\n}\n" % (case["name"], form_src(case["form"])))
-    return ("pragma circom 2.0.0;\ntemplate T(n) {\n  signal input a;\n  signal input b;\n  signal output o;\n"
-            "  component lt = LessThan(8);\n  component nb = Num2Bits(%s);\n  nb.in <== a;\n  lt.in[0] <== a;\n"
-            "  lt.in[1] <== b;\n  o <== lt.out;\n}\n" % form_src(case["form"]))
+    if k == "lessthan":
+        nb = ("component nb = Num2Bits(%s);" if i % 2 == 0 else "component nb;\n  nb = Num2Bits(%s);") % form_src(case["form"])
+        return ("pragma circom 2.0.0;\ntemplate T(n) {\n  signal input a;\n  signal input b;\n  signal output o;\n"
+                "  component lt = LessThan(8);\n  %s\n  nb.in <== a;\n  lt.in[0] <== a;\n"
+                "  lt.in[1] <== b;\n  o <== lt.out;\n}\n" % nb)
+    style = STYLES[i % len(STYLES)]
+    name = case["name"]
+    args = "" if k == "table" else form_src(case["form"])
+    call = "%s(%s)" % (name, args)
+    out = "out" if k == "table" else "out[0]"
+    stub = ""
+    if style.startswith("anonymous"):
+        if k == "table":
+            stub = "template %s() {\n  signal input in;\n  signal output out;\n  out <== in;\n}\n" % name
+        else:
+            stub = "template %s(k) {\n  signal input in;\n  signal output out[2];\n  out[0] <== in;\n  out[1] <== in;\n}\n" % name
+    body = {"decl": "  component c = %s;\n  c.in <== a;\n  o <== c.%s;\n" % (call, out),
+            "late": "  component c;\n  c = %s;\n  c.in <== a;\n  o <== c.%s;\n" % (call, out),
+            "array-in-loop": "  component c[2];\n  for (var i = 0; i < 2; i++) {\n    c[i] = %s;\n    c[i].in <== a;\n  }\n  o <== c[0].%s;\n" % (call, out),
+            "anonymous": "  _ <== %s(a);\n  o <== a;\n" % call,
+            "anonymous-in-loop-only": "  for (var i = 0; i < 1; i++) {\n    _ <== %s(a);\n  }\n  o <== a;\n" % call}[style]
+    return "pragma circom 2.1.4;\n%stemplate T(n) {\n  signal input a;\n  signal output o;\n%s}\n" % (stub, body)
 
 
 CODE = {"table": "CS0016", "size": "CS0010", "lessthan": "CS0014"}
@@ -43,15 +62,15 @@ def run(tier):
         raise vlib.ToolError("Curves.tla invariant violated: %s" % gen.violated)
     curves = json.loads([s for t, s in gen.prints if t == "CURVES"][0])
     cases = list(read_ndjson(gen.cases_path))
-    docs = [{"id": i, "curve": c["curve"], "files": [{"path": "t.circom", "named": True, "text": render(c)}]}
+    docs = [{"id": i, "curve": c["curve"], "files": [{"path": "t.circom", "named": True, "text": render(c, i)}]}
             for i, c in enumerate(cases)]
     pin, pout = os.path.join(wd, "pipe.in"), os.path.join(wd, "pipe.out")
     write_ndjson(pin, docs)
     vh(["pipeline", pin, pout])
     nflag = 0
-    for c, got in zip(cases, read_ndjson(pout)):
+    for ci, (c, got) in enumerate(zip(cases, read_ndjson(pout))):
         if "panic" in got:
-            v.violation("curve:panic " + got["panic"]["site"], {"case": c, "source": render(c), "real": got["panic"]})
+            v.violation("curve:panic " + got["panic"]["site"], {"case": c, "source": render(c, ci), "real": got["panic"]})
             continue
         reps = [e["r"] for e in got["events"] if e["e"] == "report" and e["r"]["id"] == CODE[c["kind"]]]
         if c["kind"] == "lessthan":
@@ -59,7 +78,7 @@ def run(tier):
             on_b = [r for r in reps if r["primary"] and r["primary"][0]["text"] == "b"]
             have = len(on_a)
             if len(on_b) != 1:
-                v.violation("curve:lessthan-unchecked-input-not-flagged", {"case": c, "source": render(c), "reports": reps})
+                v.violation("curve:lessthan-unchecked-input-not-flagged", {"case": c, "source": render(c, ci), "reports": reps})
         else:
             have = len(reps)
         want = 1 if c["flagged"] else 0
@@ -67,7 +86,7 @@ def run(tier):
         if have != want:
             what = {"table": "bn254-specific-table", "size": "nonstrict-size-threshold", "lessthan": "lessthan-range-threshold"}[c["kind"]]
             v.violation("curve:%s %s" % (what, "missing finding" if want else "spurious finding"),
-                        {"case": c, "source": render(c), "expected_findings": want, "real_findings": have,
+                        {"case": c, "source": render(c, ci), "expected_findings": want, "real_findings": have,
                          "reports": [r["msg"] for r in reps]})
     # ---- curve names
     names = set()
